@@ -405,6 +405,14 @@ class Router:
         lon : int
             Longitude of the point P. In 1/10 microdegrees.
         """
+        if area.a == 0 or (
+            area.b == 0
+            and area_type
+            not in (GeoBroadcastHST.GEOBROADCAST_CIRCLE, GeoAnycastHST.GEOANYCAST_CIRCLE)
+        ):
+            # A zero-sized area contains no position: report "outside" instead of
+            # dividing by zero.
+            return -1.0
         coord1 = (area.latitude / 10000000, area.longitude / 10000000)
         coord2 = (lat / 10000000, lon / 10000000)
         x_distance, y_distance = Router.calculate_distance(coord1, coord2)
